@@ -17,7 +17,7 @@ RULE = ('one case = one real `-T file --threads k` run over 2-3 scripted servers
         'plus gated 3-target runs with --threads 2 in both gate orders; thorough: all ordered triples, threads 1/2/3/32, every gate permutation, two hash seeds.  The in-process monitor records (thread, target, table pristine at entry) '
         'so the evidence lists the distinct "previous target on this thread -> this target" contexts actually produced.  Non-trivial: at least one target ran on a thread that had already served another target, or two targets ran concurrently; '
         'distinct = distinct (target list, threads, gate order, format)')
-REQUIRED = {'default_port_entries': 6, 'multi_runs': 40, 'blocks_compared': 80, 'thread_reuse_contexts': 30, 'json_runs': 8, 'policy_runs': 4, 'gated_runs': 4, 'master_digest_checks': 40}
+REQUIRED = {'targets_listed_twice': 6, 'default_port_entries': 6, 'multi_runs': 40, 'blocks_compared': 80, 'thread_reuse_contexts': 30, 'json_runs': 8, 'policy_runs': 4, 'gated_runs': 4, 'master_digest_checks': 40}
 ASSUMPTIONS = ['a per-target block is compared after removing the "(gen) target:" line and surrounding blank lines; a JSON element after removing "target"',
                'the table-pristine observation is diagnostic only: the verdict is decided on output equality']
 MANIFEST = {
@@ -53,6 +53,10 @@ def cases(tier, seed):
     for i, names in enumerate(pm if tier == 'quick' else list(itertools.permutations(['clean', 'rsa1024', 'terrapin', 'gex2048-openssh'], 3))):
         for bare in range(3):
             cs.append({'kind': 'portmix', 'targets': list(names), 'bare': bare, 'threads': [1, 2][(i + bare) % 2], 'fmt': 'json' if (i + bare) % 3 == 0 else 'text'})
+    # the same server listed twice (same line again, around another target)
+    for i, (a, b) in enumerate([('clean', 'rsa1024'), ('terrapin', 'clean'), ('gex1024', 'openssh-new')] if tier == 'quick' else list(itertools.permutations(['clean', 'rsa1024', 'terrapin', 'gex1024'], 2))):
+        for th in (1, 2):
+            cs.append({'kind': 'dup', 'targets': [a, b], 'threads': th, 'fmt': 'json' if (i + th) % 2 else 'text', 'layout': ['aba', 'aab', 'baa'][(i + th) % 3]})
     pol_pairs = [('clean', 'rsa1024'), ('rsa1024', 'clean'), ('gex1024', 'clean'), ('clean', 'clean'), ('terrapin', 'cert-small-ca'), ('cert-small-ca', 'clean')]
     for i, (a, b) in enumerate(pol_pairs if tier == 'quick' else list(itertools.permutations([x for x in A if x not in ('ssh1', 'no-probes')], 2))):
         cs.append({'kind': 'policy', 'targets': [a, b], 'threads': 1 if i % 3 else 2, 'fmt': 'json' if i % 2 else 'text'})
@@ -115,6 +119,10 @@ def run_case(c):
             file_lines = [('127.0.0.1' if t is bare else t.spec) for t in targets]
             extra = ['-p', str(bare.peer.port)]
             counters['default_port_entries'] = 1
+        if c['kind'] == 'dup':
+            file_lines = [targets['ab'.index(ch)].spec for ch in c['layout']]
+            counters['targets_listed_twice'] = 1
+        listed = file_lines if file_lines is not None and c['kind'] == 'dup' else [t.spec for t in targets]
         res = multi.run_multi(targets, c['threads'], c['fmt'], extra=extra, gate_order=c.get('gate_order'), monitors=['calls', 'tables'], tmo=30 if gated else None, hashseed=c.get('hashseed', '0'), timeout=180, file_lines=file_lines)
         r = res['run']
         if r.timed_out:
@@ -154,7 +162,7 @@ def run_case(c):
                     break
                 key = t.spec if c['kind'] != 'policy' else t.spec
                 docs = res['docs'].get(key) or res['docs'].get('%s:%s' % ('127.0.0.1', t.peer.port)) or []
-                n_same = sum(1 for x in targets if x.spec == t.spec)
+                n_same = listed.count(t.spec)
                 if len(docs) != n_same:
                     viol.append(_v('C07/element-count', 'number of JSON elements for a target differs from the number of times it was listed', target=t.name, got=len(docs), want=n_same))
                     continue
@@ -173,6 +181,8 @@ def run_case(c):
                 if not blocks:
                     viol.append(_v('C07/block-missing', 'no result block for a listed target', target=t.name, out=r.out[-300:]))
                     continue
+                if len(blocks) != listed.count(t.spec):
+                    viol.append(_v('C07/block-count', 'number of result blocks for a target differs from the number of times it was listed', target=t.name, got=len(blocks), want=listed.count(t.spec)))
                 for b in blocks:
                     counters['blocks_compared'] = counters.get('blocks_compared', 0) + 1
                     got = multi.normalize_text(b)
